@@ -14,11 +14,11 @@ git -C /repo worktree add -q --detach $wt HEAD || exit 2
 cmd=$(grep -v '^#' $src/SEED_DEMO_CMD.txt | grep -v '^export' | grep -v '^$' | grep -v '^cd ' | head -1)
 cd $wt
 echo "== demo command: $cmd"
-echo "== without the change"; (eval "timeout 600 $cmd") > /tmp/confirm-$name.without.log 2>&1; r0=$?; tail -3 /tmp/confirm-$name.without.log
+echo "== without the change"; (timeout 600 bash -o pipefail -c "$cmd") > /tmp/confirm-$name.without.log 2>&1; r0=$?; tail -3 /tmp/confirm-$name.without.log
 git apply $src/SEED_PATCH.diff || { echo "PATCH DOES NOT APPLY"; cd /; git -C /repo worktree remove --force $wt; exit 1; }
 echo "== build"; go build ./... ; rb=$?
 echo "== baseline"; go test -vet=off -count=1 ./util/... 2>&1 | tail -1; rt=${PIPESTATUS[0]}
-echo "== with the change"; (eval "timeout 600 $cmd") > /tmp/confirm-$name.with.log 2>&1; r1=$?; tail -3 /tmp/confirm-$name.with.log
+echo "== with the change"; (timeout 600 bash -o pipefail -c "$cmd") > /tmp/confirm-$name.with.log 2>&1; r1=$?; tail -3 /tmp/confirm-$name.with.log
 cd /
 echo "RESULT name=$name demo_without=$r0 demo_with=$r1 build=$rb baseline=$rt"
 if [ $r0 -eq 0 ] && [ $r1 -ne 0 ] && [ $rb -eq 0 ] && [ $rt -eq 0 ]; then
